@@ -79,9 +79,22 @@ def make(rng, kind, d=2):
     import menpo.transform as mt
     from menpo.transform.piecewiseaffine.base import PythonPWA, CachedPWA
     from menpo.transform.rbf import R2LogR2RBF, R2LogRRBF
-    if kind in ("PiecewiseAffine", "PythonPWA", "PWA_degenerate_triangle"):
+    if kind in ("PiecewiseAffine", "PythonPWA", "PWA_degenerate_triangle", "PWA_unused_vertex"):
         s, t = pwa_pair(rng)
-        if kind == "PWA_degenerate_triangle":
+        if kind == "PWA_unused_vertex":
+            # the source mesh has a vertex that none of its triangles uses (a landmark added to a surface, a mesh cut by a triangle
+            # mask): inside the meshed region it is warped like any point there, outside it is out of the domain
+            import menpo.shape as ms
+            sp_ = np.asarray(s.points, dtype=float)
+            if rng.random() < 0.5:
+                tri_ = np.asarray(s.trilist)[rng.integers(0, len(s.trilist))]
+                extra_ = (sp_[tri_] * rng.dirichlet(np.ones(3))[:, None]).sum(0)
+            else:
+                extra_ = sp_.max(0) + rng.uniform(2, 10, 2)
+            s = ms.TriMesh(np.vstack([sp_, extra_]), trilist=np.asarray(s.trilist))
+            t = ms.PointCloud(np.vstack([np.asarray(t.points, dtype=float), np.asarray(t.points, dtype=float).mean(0) + rng.uniform(-1, 1, 2)]))
+            cls = [CachedPWA, CachedPWA, PythonPWA][rng.integers(0, 3)]
+        elif kind == "PWA_degenerate_triangle":
             # the source mesh lists a zero-area triangle (a repeated vertex / a vertex pair used twice) somewhere among the proper
             # ones: it contains no point and changes nothing
             import menpo.shape as ms
@@ -93,7 +106,7 @@ def make(rng, kind, d=2):
             cls = [CachedPWA, PythonPWA][rng.integers(0, 2)]
         else:
             cls = CachedPWA if kind == "PiecewiseAffine" else PythonPWA
-        if rng.random() < 0.2:
+        if kind != "PWA_unused_vertex" and rng.random() < 0.2:
             # target landmarks given as integer pixel positions (when that keeps every triangle's orientation)
             import menpo.shape as ms
             ti = np.round(t.points).astype(np.int64)
@@ -102,7 +115,7 @@ def make(rng, kind, d=2):
             proper = np.abs(a2) > 1e-9
             if (np.sign(a2[proper]) == np.sign(b2[proper])).all() and np.abs(b2[proper]).min() > 1.0:
                 t = ms.PointCloud(ti)
-        if kind != "PWA_degenerate_triangle" and rng.random() < 0.3:
+        if kind not in ("PWA_degenerate_triangle", "PWA_unused_vertex") and rng.random() < 0.3:
             # the source is a mesh in its own right - its own triangle list (one edge flipped: not the Delaunay one), coloured
             # or textured or plain: "the triangulation on the TriMesh is used"
             import menpo.shape as ms
@@ -117,7 +130,7 @@ def make(rng, kind, d=2):
                     from menpo.image import Image
                     s = ms.TexturedTriMesh(s.points, rng.random((len(s.points), 2)), Image(rng.random((1, 5, 6))), trilist=tl_f)
         given_tl = np.array(s.trilist, copy=True)
-        if rng.random() < 0.25:
+        if kind != "PWA_unused_vertex" and rng.random() < 0.25:
             # the target handed over as a mesh with a triangulation of its own (other triangles, other row order): "the trilist is
             # entirely decided by the source"
             import menpo.shape as ms
